@@ -2,7 +2,7 @@
 load_grammar (naming of anonymous terminals, pruning of unused rules/terminals) is invisible to them.  Here a grammar is generated as an AST and rendered twice:
   as written  — anonymous literals (incl. punctuation, whose automatic names PLUS, COLON, ... may collide with user terminals), unreachable rule chains
                 holding keywords, unused terminals;
-  as meant    — unreachable rules and unused terminals removed by *this module's* reachability, every anonymous literal given an explicit, unique,
+  as meant    — rules nothing else mentions (iterated) and unused terminals removed by *this module's* own computation, every anonymous literal given an explicit, unique,
                 filtered name (or the user's terminal with exactly that string, as documented).
 Both denote the same language for every lexer; lark must accept the same texts under basic, dynamic and dynamic_complete."""
 import random, re
@@ -89,13 +89,14 @@ def as_written(ast):
 
 def as_meant(ast):
     rules, named = ast['rules'], ast['named']
-    live, todo = {'start'}, ['start']
-    while todo:
-        n = todo.pop()
-        for a in rules[n]:
-            for x in a:
-                if x[0] == 'nt' and x[1] not in live:
-                    live.add(x[1]); todo.append(x[1])
+    # lark removes a rule when no *other* remaining rule mentions it (iterated to a fixpoint) — chains of dead rules go, dead rules that mention each
+    # other stay (and so do their terminals): the same rule is applied here, independently
+    live = set(rules)
+    while True:
+        used = {'start'} | {x[1] for n in live for a in rules[n] for x in a if x[0] == 'nt' and x[1] != n}
+        if live <= used:
+            break
+        live &= used
     lrules = {n: a for n, a in rules.items() if n in live}
     used_t = {x[1] for a in lrules.values() for alt in a for x in alt if x[0] == 'T'}
     lits = list(dict.fromkeys(x[1] for a in lrules.values() for alt in a for x in alt if x[0] in ('lit', 'rep')))
